@@ -192,6 +192,7 @@ def run(res, programs, tier):
         _r15_2(res, P, cfgname, F)
         _r15_3(res, P, cfgname, F)
         _r15_4(res, P, cfgname)
+        _r15_4b(res, P, cfgname)
         if "dashu_float" in P.units:
             _r15_6(res, P, cfgname)
         if "dashu_float" in P.units:
@@ -489,3 +490,96 @@ def _r15_6(res, P, cfgname):
                 res.fail("R15.6", cfgname, key, "%s multiplies a value rooted in %s by rhs_sign (`%s`): only rhs-derived values carry the sign of the subtraction; `a - &b` / Context::sub pass Negative here while `a - b` passes Positive" % (f["p"], which, " , ".join(sym.term_str(a, 50) for a in args)), span_loc(t["sp"]))
     res.floor("R15.6", cfgname, nf, 6, "add kernels with lhs / rhs / rhs_sign parameters")
     res.floor("R15.6", cfgname, ns, 12, "rhs_sign multiplications")
+
+
+# ---------------------------------------------------------------------------------------------
+# R15.4b  hand-written clone_from is complete: `a.clone_from(&b)` must leave `a` equal to `b.clone()`.
+# On every path to the return, either *self is assigned as a whole, or every field of the matched
+# variant is assigned / handed to a nested clone_from.  A field that is skipped on one path (the ring
+# reference of a modular value, a precision) keeps its old value: the "clone" then differs from the source.
+CLONE_FROM_EXEMPT = {
+    "<dashu_int::repr::Repr as core::clone::Clone>::clone_from": "storage type with in-place buffer reuse: decided by R17.7 (sign), R17.8 (allocation pairing) and R17.2 (variant guards)",
+    "<dashu_int::buffer::Buffer as core::clone::Clone>::clone_from": "storage type: ptr/capacity are kept on purpose, bounds decided by R17.5",
+}
+
+
+def _field_key(projs):
+    """(variant or None, field) of the first field projection after the leading deref"""
+    ps = [p for p in projs]
+    if not ps or ps[0] != '*':
+        return None
+    ps = ps[1:]
+    if not ps:
+        return "WHOLE"
+    var = None
+    if ps[0].startswith('as:'):
+        var = ps[0][3:]
+        ps = ps[1:]
+    if ps and ps[0].startswith('.'):
+        return (var, ps[0][1:])
+    return None
+
+
+def _r15_4b(res, P, cfgname):
+    res.rule("R15.4b", "every hand-written Clone::clone_from assigns *self as a whole or every field of the matched variant (directly or by a nested clone_from) on every path to its return")
+    n = 0
+    for f in P.fns():
+        if not f["crate"].startswith("dashu") or not f["p"].endswith("as core::clone::Clone>::clone_from") or not f.get("mir"):
+            continue
+        if f["p"] in CLONE_FROM_EXEMPT:
+            res.ok("R15.4b", cfgname, f["p"] + " (decided elsewhere)", nontrivial=False)
+            continue
+        ty = (f.get("self_ty") or "").split("<")[0]
+        adt = P.adt.get(ty)
+        if adt is None:
+            continue
+        n += 1
+        b = f["mir"]
+        S = sym.Sym(f)
+        cfg = mir.cfg_of(b)
+        whole, writes = set(), defaultdict(set)
+
+        def note(term, bb):
+            t = term
+            while isinstance(t, tuple) and t[0] in ('ref', 'refmut'):
+                t = t[1]
+            if isinstance(t, tuple) and t[0] == 'place' and t[1] == ('arg', 1):
+                k = _field_key(t[2])
+                if k == "WHOLE":
+                    whole.add(bb)
+                elif k:
+                    writes[k].add(bb)
+        for i, j, s in mir.iter_stmts(b):
+            if s["k"] == "as" and s["p"].get("p"):
+                note(S.place(s["p"]), i)
+        for bb, t, fr in mir.iter_calls(b):
+            cp = fr and (fr.get("rp") or fr["p"])
+            if cp and cp.endswith("::clone_from") and t["a"]:
+                note(S.operand(t["a"][0]), bb)
+            # a call writing its result into *self or a field of it
+            d = t.get("d")
+            if d and d.get("p"):
+                note(S.place(d), bb)
+        variants = {v["n"]: v for v in adt["variants"]}
+        need = []
+        if adt["kind"] == "Enum":
+            for (var, fld) in list(writes):
+                if var in variants:
+                    for fl in variants[var]["fields"]:
+                        need.append((var, fl["n"]))
+        else:
+            for fl in adt["variants"][0]["fields"]:
+                need.append((None, fl["n"]))
+        need = sorted(set(need), key=str)
+        bad = []
+        for k in need:
+            blocks = whole | writes.get(k, set())
+            if not blocks or not cfg.must_pass(blocks):
+                bad.append(k)
+        key = f["p"] + " completeness"
+        if bad:
+            res.fail("R15.4b", cfgname, key, "%s reaches its return on a path that neither assigns *self nor updates field(s) %s: after a.clone_from(&b) that part of `a` keeps its old value" % (
+                f["p"], ", ".join(("%s.%s" % (v, fl)) if v else fl for v, fl in bad)), span_loc(f["sp"]))
+        else:
+            res.ok("R15.4b", cfgname, key, nontrivial=bool(need), sample=dict(function=f["p"], fields=[("%s.%s" % (v, fl)) if v else fl for v, fl in need], whole_write_blocks=len(whole)))
+    res.floor("R15.4b", cfgname, n, 5, "hand-written clone_from impls")
